@@ -15,7 +15,16 @@ POINT_NAMES = {1: 'tween-over-in', 2: 'tween-under-in', 3: 'NewRequest', 4: 'rou
                16: 'response-callback', 17: 'NewResponse', 18: 'finished-callback', 19: 'exception-view'}
 PLAIN, HTTP, PM, FALSE = 1, 2, 3, 4
 
-_S = {}          # run state: log, base depth
+import threading
+
+
+class _State(threading.local):      # per-thread run state (the soak runs requests on 16 threads at once)
+    def __init__(self):
+        self.log = []
+        self.base = 0
+
+
+_T = _State()
 _APPS = {}
 
 
@@ -70,7 +79,7 @@ def _fault(scn, point, n=0):
 def _log(request, point, aux=0):
     from pyramid.threadlocal import manager, get_current_request
     scn, level = _scn(request)
-    _S['log'].append([point, level, len(manager.stack) - _S['base'],
+    _T.log.append([point, level, len(manager.stack) - _T.base,
                       1 if get_current_request() is request else 0, aux])
 
 
@@ -280,8 +289,8 @@ def run_request(case):
     from pyramid.threadlocal import manager
     app = get_app(case['excview'])
     base = len(manager.stack)
-    _S['log'] = []
-    _S['base'] = base
+    _T.log = []
+    _T.base = base
     req = make_request(case['scn'], 0)
     status = []
     try:
@@ -295,4 +304,4 @@ def run_request(case):
         depth = len(manager.stack) - base
     finally:
         del manager.stack[base:]
-    return [outcome, depth, _S['log']]
+    return [outcome, depth, _T.log]
